@@ -7,6 +7,8 @@ the whole table is the proof.  The FULL statement (`NoLeakAtAnyPoint`) holds on 
 in known_findings.json; `each_fix_is_needed` keeps the witnesses of what it looked like before.
 -/
 import GeckoModel.Model.Teardown
+import GeckoModel.Model.Coop
+import GeckoModel.Generated.Skeletons
 
 namespace GeckoModel.C10
 open GeckoModel GeckoModel.Generated
@@ -86,5 +88,13 @@ example : (runDiscoverFinally [.other, .cancelLoc, .awaitOther, .closeTransport,
 /-- non-vacuity: the table covers discovery, the handshake and steady state, and contains both endpoint-creation windows -/
 example : (∀ p ∈ ["discover", "_connect", "pump-idle", "pump-connected"], p ∈ crashPoints.map (·.proc)) ∧
     (crashPoints.filter (·.endpoint == .pending)).length = 2 ∧ crashPoints.length ≥ 20 := by decide
+
+/-- **the table the statements above quantify over has one entry per suspension point of the two connection procedures**: the
+crash-point table (harness/gen_c10.py) and the suspension skeletons (harness/gen_coop.py) are produced by two independent
+translators from the same source and agree on how many points there are -/
+theorem crash_points_cover_every_suspension :
+    (crashPoints.filter (·.proc == "_connect")).length = Coop.suspensions Skeletons.sk_async_spa__GeckoAsyncSpa__connect ∧
+    (crashPoints.filter (·.proc == "discover")).length = Coop.suspensions Skeletons.sk_async_locator__GeckoAsyncLocator_discover := by
+  decide +kernel
 
 end GeckoModel.C10
